@@ -4,7 +4,9 @@
                 has/get/roots only; output (tboth <blockstore result> <storage result>))
      opts     : (whole storeid zeof maxh maxs maxcid codec)
      supplied : tnone | (tgen opts src)   -- index handed to NewReadOnly = GenerateIndex(src, opts)
-     queries  : (thas key) (tget key) (tgetsize key) (tkeys) (troots) ...
+                | (tidx bytes)             -- index.ReadFrom(bytes) (hand-crafted index sections)
+     queries  : (thas key) (tget key) (tgetsize key) (tkeys) (troots) (tclose mmap) ...
+                close: blockstore front-end only; mmap = 1 when Close also closes the backing (OpenReadOnly)
      hdrtab   : header-decoder oracle table (Val.hdr_lookup)
      expect   : tnone | (tvalid roots blocks idxids)  -- the file is a constructed valid archive of these
                 roots/blocks; idxids = 1 iff the index in use has identity entries whenever the payload
@@ -26,13 +28,37 @@ Definition v_keys_out (k : keys_out) : val :=
 Section Run.
   Variable hdrdec : bytes -> option (list bytes * N).
 
-  Definition answer (front : N) (s : rostate) (q : val) : val :=
+  Definition v_roans (a : roans) : val :=
+    match a with AOut o => v_out o | AKeys k => v_keys_out k end.
+
+  Definition v_roop (q : val) : option roop :=
+    let key := vB (vnth 1 q) in
+    if tag_is q "has" then Some (RHas key)
+    else if tag_is q "get" then Some (RGet key)
+    else if tag_is q "getsize" then Some (RGetSize key)
+    else if tag_is q "keys" then Some RKeys
+    else if tag_is q "roots" then Some RRoots
+    else if tag_is q "close" then Some RClose
+    else None.
+
+  (* blockstore: a session with the closed flag; storage: stateless *)
+  Fixpoint answers_bs (ss : rosess) (qs : list val) : list val :=
+    match qs with
+    | [] => []
+    | q :: t =>
+      match v_roop q with
+      | None => VL [VT "err"; v_err EOracleMiss] :: answers_bs ss t
+      | Some op =>
+        let ss0 := match op with RClose => mkss (ss_st ss) (ss_closed ss) (vbool (vnth 1 q)) | _ => ss end in
+        let '(ss', a) := ss_step hdrdec ss0 op in v_roans a :: answers_bs ss' t
+      end
+    end.
+
+  Definition answer_st (s : rostate) (q : val) : val :=
     let key := vB (vnth 1 q) in
     if tag_is q "has" then v_out (ro_has s key)
-    else if tag_is q "get" then v_out (if front =? 0 then ro_get s key else sto_get s key)
-    else if tag_is q "getsize" then v_out (ro_getsize s key)
-    else if tag_is q "keys" then v_keys_out (ro_keys hdrdec s)
-    else if tag_is q "roots" then v_out (if front =? 0 then ro_roots hdrdec s else sto_roots s)
+    else if tag_is q "get" then v_out (sto_get s key)
+    else if tag_is q "roots" then v_out (sto_roots s)
     else VL [VT "err"; v_err EOracleMiss].
 
   Definition run_ro_with (input : val) : val :=
@@ -46,11 +72,17 @@ Section Run.
         | Ok i => Ok (Some i)
         | Err e => Err e
         end
+      else if tag_is sup "idx" then
+        match idx_read (vB (vnth 1 sup)) with
+        | Ok (i, _) => Ok (Some (RFlat i))
+        | Err e => Err e
+        end
       else Ok None in
     let run1 (fr : N) (si : option ridx) : val :=
       match (if fr =? 0 then ro_open hdrdec o file si else sto_open hdrdec o file) with
       | Err e => VL [VT "openerr"; v_err e]
-      | Ok s => VL [VT "ok"; VL (map (answer fr s) (vL (vnth 4 input)))]
+      | Ok s => VL [VT "ok"; VL (if fr =? 0 then answers_bs (mkss s false false) (vL (vnth 4 input))
+                                 else map (answer_st s) (vL (vnth 4 input)))]
       end in
     match supplied with
     | Err e => VL [VT "generr"; v_err e]
@@ -132,17 +164,48 @@ Definition fail_class (o : qopts) (idxids : bool) (clause : string) (q a : val) 
   then "identity-getsize-short-circuit" else "".
 
 (* all failing queries of a case as (clause, class) *)
-Fixpoint all_fails (front : N) (o : qopts) (idxids : bool) (roots : list bytes) (bs : list block) (qs anss : list val)
-  : list (string * string) :=
+Definition val_is_err (v : val) (cls : string) : bool :=
+  match v with VL [VT t; VT e] => (String.eqb t "err" || String.eqb t "keyserr") && String.eqb e cls | _ => false end.
+
+(* after Close: identity short cuts still answer, everything else is errClosed; Roots is unaffected unless
+   Close closed the backing *)
+Definition check_closed (o : qopts) (roots : list bytes) (mmap : bool) (q ans : val) : option string :=
+  let key := vB (vnth 1 q) in
+  match cid_parse key with
+  | None => None
+  | Some kp =>
+    let short := negb (q_storeid o) && is_identity kp in
+    if tag_is q "has" then
+      if (if short then val_is_bool ans true else val_is_err ans "closed") then None else Some "closed-store-answered"
+    else if tag_is q "get" then
+      if (if short then val_is_bytes ans (c_digest kp) else val_is_err ans "closed") then None else Some "closed-store-answered"
+    else if tag_is q "getsize" then
+      if (if is_identity kp then val_is_size ans (blen (c_digest kp)) else val_is_err ans "closed") then None
+      else Some "closed-store-answered"
+    else if tag_is q "keys" then if val_is_err ans "closed" then None else Some "closed-store-answered"
+    else if tag_is q "roots" then
+      if mmap then None
+      else match ans with
+           | VL [VT t; rs] => if String.eqb t "keys" && cids_eqb (vcids rs) roots then None else Some "roots-differ"
+           | _ => Some "roots-differ"
+           end
+    else None
+  end.
+
+Fixpoint all_fails_c (closed mmap : bool) (front : N) (o : qopts) (idxids : bool) (roots : list bytes) (bs : list block)
+         (qs anss : list val) : list (string * string) :=
   match qs, anss with
   | q :: qs', a :: anss' =>
-      match check_answer front o roots bs q a with
-      | Some c => (c, fail_class o idxids c q a) :: all_fails front o idxids roots bs qs' anss'
-      | None => all_fails front o idxids roots bs qs' anss'
+      if tag_is q "close" then all_fails_c true (closed && mmap || vbool (vnth 1 q)) front o idxids roots bs qs' anss'
+      else
+      match (if closed then check_closed o roots mmap q a else check_answer front o roots bs q a) with
+      | Some c => (c, fail_class o idxids c q a) :: all_fails_c closed mmap front o idxids roots bs qs' anss'
+      | None => all_fails_c closed mmap front o idxids roots bs qs' anss'
       end
   | [], [] => []
   | _, _ => [("answer-count-mismatch", "")]
   end.
+Definition all_fails := all_fails_c false false.
 
 (* executable form of ReadOnlyRefine.consistent: sections with equal multihash carry equal bytes *)
 Definition consistentb (bs : list block) : bool :=
